@@ -55,6 +55,23 @@ def run(ctx):
     # many small writes while a response is held: channel backlog (16) and coalescing up to the body cap
     for i, (k, n) in enumerate([(40, 1), (20, 5000), (17, 65536), (3, 200000)]):
         scen.append({"id": "burst%d" % i, "steps": [{"a": "write", "n": n}] * k + [{"a": "respond", "n": 10}] * 3, "front": False, "src": "burst"})
+    # short application reads: a response is consumed in pieces while the next responses arrive
+    for i in range(20 if quick else 200):
+        steps, tot = [], 0
+        for _ in range(rng.randrange(4, 24)):
+            c = rng.random()
+            if c < 0.25:
+                steps.append({"a": "write", "n": rng.choice([1, 2, 100, 1448])})
+            elif c < 0.65:
+                n = rng.choice([1, 10, 100, 200, 1000])
+                if tot + n > 6000:
+                    n = 0
+                tot += n
+                steps.append({"a": "respond", "n": n})
+            else:
+                steps.append({"a": "read", "n": 0})
+        scen.append({"id": "short%d" % i, "steps": steps, "front": False, "src": "short-reads",
+                     "rbuf": rng.choice([[1], [7], [10, 1, 70000], [100], [3, 70000], [64, 1]])})
     binary = ctx.go_build("./cmd/c16")
     traces = ctx.exec_scenarios(binary, scen, "c16", shards=15, timeout=3000)
     if len(traces) != len(scen) and not any(t.get("crashed") for t in traces):
